@@ -165,6 +165,22 @@ def judgeLogLine (res : String) : Option String :=
       | _ => none
   | _, _, _ => some "unreadable log-state line"
 
+/-- verdict on a log-state line produced under openraft's full log discipline: the indices are
+consecutive and the first entry comes right after the purge marker (no hole) -/
+def judgeHoles (res : String) : Option String :=
+  match field res "purged", field res "ids" with
+  | some p, some ids =>
+    let idx := (parseList ids).filterMap fun i => (parseLid i).map (·.index)
+    let rec consec : List Nat → Bool
+      | a :: b :: r => b == a + 1 && consec (b :: r)
+      | _ => true
+    if !consec idx then some s!"hole inside the log: ids={ids}"
+    else match parseOLid p, idx.head? with
+      | some (some pl), some f =>
+        if f != pl.index + 1 then some s!"hole between last_purged={p} and the first log entry: ids={ids}" else none
+      | _, _ => none
+  | _, _ => some "unreadable log-state line"
+
 end Varpulis.Driver.RaftIO
 
 namespace Varpulis.Driver.RaftSMD
@@ -176,6 +192,8 @@ structure St where
   snaps : List (Nat × Snapshot) := []
   /-- `get_current_snapshot` per store: the last snapshot built by it or installed into it -/
   cur : List (String × Snapshot) := []
+  /-- the storage-call sequence follows the full log discipline: holes in the log are failures -/
+  disciplined : Bool := false
 
 def St.sm (s : St) (r : String) : SM := (s.sms.lookup r).getD {}
 def St.setSm (s : St) (r : String) (sm : SM) : St := { s with sms := (r, sm) :: s.sms.filter (·.1 ≠ r) }
@@ -185,8 +203,8 @@ def St.setLog (s : St) (r : String) (l : LogStore) : St := { s with logs := (r, 
 def bad (s : St) (why : String) : St × String := (s, "PROTOCOL " ++ why)
 
 /-- a log-store line: model answer vs implementation, and the property verdict on the implementation's answer -/
-def logVerdict (l : LogStore) (impl : String) : String :=
-  match judgeLogLine impl with
+def logVerdict (disciplined : Bool) (l : LogStore) (impl : String) : String :=
+  match (judgeLogLine impl).orElse (fun _ => if disciplined then judgeHoles impl else none) with
   | some why => "JUDGE " ++ why
   | none => verdict (pLog l) impl
 
@@ -194,6 +212,7 @@ def step (s : St) (line : String) : St × String :=
   let (op, res) := splitCase line
   let ws := words op
   match ws, res with
+  | ["new", "log", "d"], _ => ({ disciplined := true }, "")
   | "new" :: _, _ => ({}, "")
   | ["store", r, _], none => ({ (s.setSm r {}).setLog r {} with cur := s.cur.filter (·.1 ≠ r) }, "")
   | ["cur", r], some impl =>
@@ -237,19 +256,19 @@ def step (s : St) (line : String) : St × String :=
     | none => bad s "entries"
     | some es =>
       let l := (s.log r).append es
-      (s.setLog r l, logVerdict l impl)
+      (s.setLog r l, logVerdict s.disciplined l impl)
   | ["purge", r, id], some impl =>
     match parseLid id with
     | none => bad s "purge"
     | some id =>
       let l := (s.log r).purgeUpto id
-      (s.setLog r l, logVerdict l impl)
+      (s.setLog r l, logVerdict s.disciplined l impl)
   | ["trunc", r, id], some impl =>
     match parseLid id with
     | none => bad s "trunc"
     | some id =>
       let l := (s.log r).deleteConflictSince id
-      (s.setLog r l, logVerdict l impl)
+      (s.setLog r l, logVerdict s.disciplined l impl)
   | ["vote", r, t, n, c], some impl =>
     match t.toNat?, n.toNat? with
     | some t, some n =>
